@@ -487,6 +487,17 @@ def r_canonical_clash(m, rnd):
         if _dummy_attrs(m) is not None:
             yield d.kind + '_vs_route', apply2
 
+        def apply3(m2, path=path, d=d):
+            m2.namespaces[path[0]].defs.append(
+                AnnTypeDef(name=d.name.upper() + '_', ns=d.ns, doc=None,
+                           params=[FieldDef(name='p', type=prim('String'), default=None, doc=None, anns=[])]))
+        yield d.kind + '_vs_annotation_type', apply3
+    for path, d in defs(m, ('annotation_type',)):
+        def apply4(m2, path=path, d=d):
+            m2.namespaces[path[0]].defs.append(
+                AliasDef(name=d.name.upper() + '_', ns=d.ns, doc=None, type=prim('String'), anns=[]))
+        yield 'annotation_type_vs_alias', apply4
+
 
 def _dummy_attrs(m2):
     """Attrs that satisfy the schema (copied from any existing route)."""
